@@ -2168,6 +2168,13 @@ out:
 		case *kmsg.MessageV1:
 			innerMessage.Offset += base
 			innerMessage.Attributes |= int8(compression)
+			if message.Attributes&0b1000 != 0 {
+				// LogAppendTime is set on the wrapper only: the
+				// wrapper's timestamp and timestamp type apply
+				// to every inner message.
+				innerMessage.Attributes |= 0b1000
+				innerMessage.Timestamp = message.Timestamp
+			}
 			if !o.processV1Message(fp, innerMessage) {
 				return i, uncompressedBytes
 			}
